@@ -12,3 +12,8 @@ Theorem step_filters_are_the_source's : forall c s,
   Gen.Step.not_above Gen.Step.STEP_OUT_OR_SAME c s = (c <=? s) /\
   Gen.Step.not_above Gen.Step.STEP_OVER_OR_SAME c s = (c <? s).
 Proof. intros c s. split; reflexivity. Qed.
+
+(* a `next` that is interrupted (signal, watchpoint) leaves no temporary breakpoint behind: the model's step_over has no
+   temporaries in its result state, which is right only if the source removes them before its early returns *)
+Theorem step_over_cleans_before_returning : Gen.Step.STEP_OVER_REMOVES_TEMPS_FIRST = true.
+Proof. reflexivity. Qed.
